@@ -12,9 +12,10 @@ from pymoo.core.problem import Problem
 class RandProblem(Problem):
     """deterministic random problem; rounding creates ties in objectives and violations"""
 
-    def __init__(self, n_var, n_obj, n_ieq, xl, xu, A, B, shift, digits, fscale=1.0, gscale=1.0):
+    def __init__(self, n_var, n_obj, n_ieq, xl, xu, A, B, shift, digits, fscale=1.0, gscale=1.0, n_eq=0, Bh=None, shift_h=0.0):
         self.fscale = fscale; self.gscale = gscale
-        super().__init__(n_var=n_var, n_obj=n_obj, n_ieq_constr=n_ieq, xl=np.array(xl, dtype=float), xu=np.array(xu, dtype=float))
+        super().__init__(n_var=n_var, n_obj=n_obj, n_ieq_constr=n_ieq, n_eq_constr=n_eq, xl=np.array(xl, dtype=float), xu=np.array(xu, dtype=float))
+        self.Bh = np.array(Bh if Bh is not None else np.zeros((max(n_eq, 1), n_var)), dtype=float); self.shift_h = shift_h
         self.A = np.array(A, dtype=float); self.B = np.array(B, dtype=float); self.shift = shift; self.digits = digits
 
     def _evaluate(self, X, out, *args, **kwargs):
@@ -27,6 +28,8 @@ class RandProblem(Problem):
         out["F"] = np.round(F, self.digits) * self.fscale
         if self.n_ieq_constr > 0:
             out["G"] = np.round((Z @ self.B.T)[:, :self.n_ieq_constr] + self.shift, self.digits) * self.gscale
+        if self.n_eq_constr > 0:
+            out["H"] = np.round((Z @ self.Bh.T)[:, :self.n_eq_constr] + self.shift_h, min(self.digits, 1)) * self.gscale
 
 
 SELS = ["rand", "best", "current-to-best", "current-to-rand", "rand-to-best", "ranked"]
@@ -68,16 +71,20 @@ def gen_hist_case(rng, algs=("DE", "NSDE", "GDE3", "GDE3MNN", "GDE32NN", "GDE3P"
             cfg["sel"] = "ranked"
     if isinstance(cfg["F"], tuple) and rng.random() < 0.4:
         cfg["F_array"] = True
+    if rng.random() < (0.25 if n_ieq == 0 else 0.15):
+        # equality constraints (alone or next to the inequalities); coarse rounding makes some members satisfy them exactly
+        cfg["n_eq"] = 1; cfg["Bh"] = [[rng.gauss(0, 1) for _ in range(n_var)]]; cfg["shift_h"] = rng.choice([0.0, -0.5, 0.2])
     if alg in ("GA", "EA"):
         cfg["n_off"] = rng.choice([ps, max(2, ps // 2), 3])
         cfg["n_init"] = rng.choice([ps, ps, max(4, ps - 3), max(4, ps // 2)])
         cfg["ga_ops"] = rng.choice(["sbx-pm", "dex"])
+        cfg["adv_init"] = rng.random() < 0.4
     return cfg
 
 
 def make_problem(cfg):
     return RandProblem(cfg["n_var"], cfg["n_obj"], cfg["n_ieq"], decarr(cfg["xl"]), decarr(cfg["xu"]), cfg["A"], cfg["B"], cfg["shift"], cfg["digits"],
-                       cfg.get("fscale", 1.0), cfg.get("gscale", 1.0))
+                       cfg.get("fscale", 1.0), cfg.get("gscale", 1.0), n_eq=cfg.get("n_eq", 0), Bh=cfg.get("Bh"), shift_h=cfg.get("shift_h", 0.0))
 
 
 _SHARED_F = {}
@@ -105,7 +112,7 @@ def make_algorithm(cfg):
         sv = (ConstrRankAndCrowding if cfg["surv"] == "ConstrRankAndCrowding" else RankAndCrowding)(crowding_func=cfg["cf"])
         cross = SBX() if cfg["ga_ops"] == "sbx-pm" else DEX(variant=cfg["cx"], CR=float.fromhex(cfg["CR"]))
         return GeneticAlgorithm(pop_size=cfg["pop_size"], sampling=X0, selection=RandomSelection(), crossover=cross, mutation=PM(),
-                                survival=sv, n_offsprings=cfg["n_off"], eliminate_duplicates=True)
+                                survival=sv, n_offsprings=cfg["n_off"], eliminate_duplicates=True, advance_after_initial_infill=bool(cfg.get("adv_init", False)))
     if a == "DE":
         return DE(de_repair=cfg["repair"], **kw)
     if a == "NSDER":
@@ -127,10 +134,11 @@ class Registry:
         return self.ids[k]
 
 
-def ind_data(ind, n_ieq):
+def ind_data(ind, n_ieq, n_eq=0):
     G = np.asarray(ind.G, dtype=float).ravel() if n_ieq else np.zeros(0)
+    H = np.asarray(ind.H, dtype=float).ravel() if n_eq else np.zeros(0)
     return {"X": enc(np.asarray(ind.X, dtype=float)), "F": enc(np.asarray(ind.F, dtype=float)), "CV": float(ind.CV[0]).hex(), "feas": bool(ind.FEAS[0]),
-            "G": enc(G), "C": enc(np.maximum(G, 0))}
+            "G": enc(G), "H": enc(H), "C": enc(np.concatenate((np.maximum(G, 0), np.absolute(H))))}
 
 
 def run_history(cfg, hook=None):
@@ -154,7 +162,7 @@ def run_history(cfg, hook=None):
         n_eval_gen = alg.evaluator.n_eval - ne0
         for i in pre + inf_ids:
             if i not in data:
-                data[i] = ind_data(reg.objs[i], cfg["n_ieq"])
+                data[i] = ind_data(reg.objs[i], cfg["n_ieq"], cfg.get("n_eq", 0))
         cands = []
         rank_before = {i: reg.objs[i].get("rank") for i in pre + inf_ids}
         rank_before.update(dict(zip(pre, pre_rank)))          # members: as left by the previous generation (mating must not write attributes)
@@ -174,7 +182,7 @@ def run_history(cfg, hook=None):
         post = [reg.gid(i) for i in alg.pop]
         for i in post:
             if i not in data:
-                data[i] = ind_data(reg.objs[i], cfg["n_ieq"])
+                data[i] = ind_data(reg.objs[i], cfg["n_ieq"], cfg.get("n_eq", 0))
         rec_g = {"gen": g, "pre": pre, "pre_rank": pre_rank, "ask_events": enc_events(rec.events), "infills": inf_ids, "infill_X": enc(inf_X),
                  "n_eval_gen": int(n_eval_gen), "cands": holder.get("cands"), "post": post, "n_survive": None,
                  "post_rank": [reg.objs[i].get("rank") for i in post],
@@ -190,8 +198,10 @@ def run_history(cfg, hook=None):
         ok = bool(np.array_equal(out["F"], Fp))
         if cfg["n_ieq"]:
             ok = ok and bool(np.array_equal(out["G"], np.array([reg.objs[i].G for i in post], dtype=float)))
+        if cfg.get("n_eq"):
+            ok = ok and bool(np.array_equal(out["H"], np.array([reg.objs[i].H for i in post], dtype=float)))
         rec_g["provenance"] = ok
-        rec_g["stored_same"] = all(data[i] == ind_data(reg.objs[i], cfg["n_ieq"]) for i in pre + inf_ids)
+        rec_g["stored_same"] = all(data[i] == ind_data(reg.objs[i], cfg["n_ieq"], cfg.get("n_eq", 0)) for i in pre + inf_ids)
         gens_out.append(rec_g)
         if hook is not None:
             alg = hook(alg, g) or alg
@@ -240,7 +250,9 @@ def tell_term(cfg, obs, g):
     if alg == "NSDER":
         return None
     if alg in ("GA", "EA") and g == 0:
-        return "nlist_same %s %s" % (cnl(G["post"]), cnl(G["infills"]))
+        if not cfg.get("adv_init"):
+            return "nlist_same %s %s" % (cnl(G["post"]), cnl(G["infills"]))
+        n = len(G["infills"])          # advance_after_initial_infill=True: survival.do(problem, infills, n_survive=len(infills))
     if alg == "DE":
         if g == 0:
             return "nlist_same (map (s_id (N:=Fn)) (fitness_sort (N:=Fn) [%s])) %s" % (";\n ".join(sind_of(obs, i) for i in G["infills"]), cnl(G["post"]))
